@@ -11,6 +11,8 @@ The prompts contain only the text of the property (seeds) or a list of files
 import json, os, subprocess, sys
 VERIF = os.path.dirname(os.path.dirname(os.path.abspath(__file__)))
 kind, base = sys.argv[1], sys.argv[2]
+HINT = sys.argv[3] if len(sys.argv) > 3 else ""
+TASKS = sys.argv[3] if len(sys.argv) > 3 else "tools/prompts/refactor_wave2.json"
 os.makedirs(base, exist_ok=True)
 
 def worktree(d):
@@ -25,12 +27,12 @@ if kind == "seeds":
         worktree(d)
         prop = "TITLE: %s\n\nSTATEMENT: %s\n\nQUANTIFIED OVER: %s\n\nWHY THE EXISTING TESTS CANNOT SETTLE IT: %s\n\nCODE ANCHORS: %s" % (
             p["title"], p["statement"], p["quantifier"]["text"], p["why_tests_cant"], json.dumps(p.get("anchors")))
-        t = tmpl.replace("@DIR@", d).replace("@BASE@", base).replace("@ID@", p["id"]).replace("@PROP@", prop).replace("@HINT@", "")
+        t = tmpl.replace("@DIR@", d).replace("@BASE@", base).replace("@ID@", p["id"]).replace("@PROP@", prop).replace("@HINT@", HINT)
         open(os.path.join(base, p["id"] + ".prompt.txt"), "w").write(t)
         print(d)
 else:
     tmpl = open(os.path.join(VERIF, "tools/prompts/refactor_prompt_template.txt")).read()
-    tasks = json.load(open(os.path.join(VERIF, "tools/prompts/refactor_wave2.json")))
+    tasks = json.load(open(os.path.join(VERIF, TASKS)))
     for t in tasks:
         d = os.path.join(base, t["id"])
         worktree(d)
